@@ -76,7 +76,7 @@ func (r *Rng) label() string {
 	case 7:
 		return r.Pick([]string{"1", "0x7f", "0", "08", "256", "0x", "4294967295", "4294967296", "1e3", "0XFF", "00", "-1", "+1", "0x+1", "99999999999999999999", "99999999999999999999x", "0b1", "1_0"})
 	case 8:
-		return r.Pick([]string{"", " ", "a b", "a<b", "a^b", "a|b", "a%b", "a\\b", "a]b", "a[b", "a\x7fb", "a\x00b", "a!b", "a*b", "a$b", "a~b", "a'b", "a`b", "a{b", "a\"b"})
+		return r.Pick([]string{"exa<mple.123", "a b.7", "x|y.0x10", "", " ", "a b", "a<b", "a^b", "a|b", "a%b", "a\\b", "a]b", "a[b", "a\x7fb", "a\x00b", "a!b", "a*b", "a$b", "a~b", "a'b", "a`b", "a{b", "a\"b"})
 	case 9:
 		return r.Pick(invalidBytes)
 	}
@@ -185,7 +185,7 @@ func (r *Rng) path() string {
 	return sb.String()
 }
 
-var queryBits = []string{"%25FF", "x=%2525fe", "%25C3%2528=1", "k=%25%2537E", "%%36%31=%%37E", "a=1", "b=2", "a=3", "q", "=", "=v", "k=", "a&b", "&&", "a=b=c", "x=%41", "x=1+1", "x=%2B", "x=%26", "n%3Dm=v", "é=ü", "%ff=1", "a b=c d", "a'b", "\"q\"", "<q>", "#", "?", "??", "a;b", "%", "%4", "%zz", "sp=%20", "\xff", "`", "{}", "|", "^", "\\", "[]", "Z=1", "z=1", "A=1", "\U0001F600=1", "\uE000=1"}
+var queryBits = []string{"q=hello%2520world", "a%2520b=1", "%25FF", "x=%2525fe", "%25C3%2528=1", "k=%25%2537E", "%%36%31=%%37E", "a=1", "b=2", "a=3", "q", "=", "=v", "k=", "a&b", "&&", "a=b=c", "x=%41", "x=1+1", "x=%2B", "x=%26", "n%3Dm=v", "é=ü", "%ff=1", "a b=c d", "a'b", "\"q\"", "<q>", "#", "?", "??", "a;b", "%", "%4", "%zz", "sp=%20", "\xff", "`", "{}", "|", "^", "\\", "[]", "Z=1", "z=1", "A=1", "\U0001F600=1", "\uE000=1"}
 
 func (r *Rng) query() string {
 	n := 1 + r.Intn(4)
